@@ -247,3 +247,35 @@ func verifH_C19_optin_formats() {
 	verifCheckLeaks(&Schema{Type: &Types{"array"}, Items: &SchemaRef{Value: s}}, []any{v}, "format "+format+" in an item")
 	verifReach("end")
 }
+
+type verifNamedString string
+
+type verifStructValue struct{ S string }
+
+//verif:harness id=C19 tier=quick,thorough witness=end,rejected bounds="values of Go types the validator does not handle (map[string]string, []string, a named string type, a struct, a pointer to a string), each carrying a marker, at the top level or nested in an object member / array item, against {} / {type: object} / {type: string}: the value is rejected and no Reason or assembled message contains the marker"
+func verifH_C19_foreign_go_values() {
+	verifMarkerReset()
+	m := verifMarker("v")
+	var v any
+	switch verifChoose("gotype", 5) {
+	case 0:
+		v = map[string]string{"k": m}
+	case 1:
+		v = []string{m}
+	case 2:
+		v = verifNamedString(m)
+	case 3:
+		v = verifStructValue{S: m}
+	case 4:
+		v = &m
+	}
+	switch verifChoose("nest", 3) {
+	case 1:
+		v = map[string]any{"a": v}
+	case 2:
+		v = []any{v}
+	}
+	s := []*Schema{{}, {Type: &Types{"object"}}, {Type: &Types{"string"}}}[verifChoose("schema", 3)]
+	verifCheckLeaks(s, v, "foreign Go value")
+	verifReach("end")
+}
